@@ -14,15 +14,21 @@ PythY(l) == [j \in 1..13 |-> RMul(l, <<<<0, 1>>, <<3, 4>>, <<0 - 3, 4>>, <<4, 3>
                                        <<8, 15>>, <<0 - 8, 15>>, <<15, 8>>, <<0 - 15, 8>>>>[j])]
 HalfCases == {[fam |-> "gram", half |-> TRUE, p |-> [v |-> v, alpha |-> 0, l |-> l], X |-> X] :
                  v \in {R(1), <<1, 4>>, R(3)}, l \in {R(1), <<1, 2>>, R(2)}, X \in {<<R(0)>>, <<R(0), R(0)>>}}
-Init == \/ c \in HalfCases
+\* mixture parameter 3/2: base 1 + d^2 / (3 l^2) is a rational square for d / l in {0, 3, 12} (1, 4, 49): value v / base^(3/2)
+ThreeHalvesY(l) == [j \in 1..9 |-> RMul(l, <<R(0), R(3), R(0 - 3), R(12), R(0 - 12), R(3), R(0), R(12), R(0 - 3)>>[j])]
+ThreeHalvesCases == {[fam |-> "gram", threehalves |-> TRUE, p |-> [v |-> v, alpha |-> 0, l |-> l], X |-> <<R(0)>>] : v \in {R(1), R(3)}, l \in {R(1), <<1, 2>>}}
+Init == \/ c \in HalfCases \cup ThreeHalvesCases
         \/ \E p \in Params, S \in PointSets : c = [fam |-> "gram", p |-> p, X |-> SortedSeq(S)]
         \/ \E p \in Params \cup {[v |-> v, alpha |-> a, l |-> l] : v \in {<<1, 64>>, R(64)}, a \in {1, 2, 64}, l \in {<<1, 64>>, R(64)}}
                         \cup {[v |-> R(1), alpha |-> 64, l |-> R(1)], [v |-> R(3), alpha |-> 16, l |-> <<1, 2>>]} :
               c = [fam |-> "scalar", p |-> p, X |-> <<>>]      \* incl. the corners of the parameter box (1e-2, 1e2)
+        \* non-integer mixture parameters for the relational checks (axioms; matrix form = scalar form)
+        \/ \E a \in {<<3, 2>>, <<5, 2>>, <<7, 10>>, <<19, 8>>}, l \in {R(1), <<1, 2>>} : c = [fam |-> "scalar", ralpha |-> a, p |-> [v |-> R(2), alpha |-> 0, l |-> l], X |-> <<>>]
 Next == UNCHANGED c
 Spec == Init /\ [][Next]_c
-Half == "half" \in DOMAIN c
-K(x, y) == IF Half THEN RQHalf(c.p.v, c.p.l, x, y) ELSE RQ(c.p.v, c.p.alpha, c.p.l, x, y)
+Half == "half" \in DOMAIN c \/ "threehalves" \in DOMAIN c
+TH == "threehalves" \in DOMAIN c
+K(x, y) == IF TH THEN RQThreeHalves(c.p.v, c.p.l, x, y) ELSE IF Half THEN RQHalf(c.p.v, c.p.l, x, y) ELSE RQ(c.p.v, c.p.alpha, c.p.l, x, y)
 IsG == c.fam = "gram"
 G == TLCEval(Gram(K, c.X, c.X))
 Inv_Symmetric == IsG => \A i, j \in 1..Len(c.X) : G[i][j] = G[j][i]
@@ -36,12 +42,12 @@ IntegerPoints == \A i \in 1..Len(c.X) : c.X[i][2] = 1
 Inv_PSD       == (IsG /\ ~Half /\ (Len(c.X) <= 2 \/ (c.p.v = R(1) /\ c.p.l = R(1) /\ IntegerPoints /\ (c.p.alpha = 1 \/ Len(c.X) <= 3)))) => PSD(G)
 Flat(M) == LET RECURSIVE Fl(_) Fl(k) == IF k = 0 THEN <<>> ELSE Fl(k - 1) \o M[k] IN Fl(Len(M))
 \* second point set for rectangular Gram matrices: the first |X| - 1 points shifted by 1/2, plus 5
-Y == IF Half THEN PythY(c.p.l) ELSE [j \in 1..(Len(c.X) + 1) |-> IF j <= Len(c.X) THEN RAdd(c.X[j], <<1, 2>>) ELSE R(5)]
+Y == IF TH THEN ThreeHalvesY(c.p.l) ELSE IF Half THEN PythY(c.p.l) ELSE [j \in 1..(Len(c.X) + 1) |-> IF j <= Len(c.X) THEN RAdd(c.X[j], <<1, 2>>) ELSE R(5)]
 \* the premise of the exact square root
-Inv_HalfExact == Half => \A i \in 1..Len(c.X), j \in 1..Len(Y) : IsSquareQ(HalfBase(c.p.l, c.X[i], Y[j]))
-Emit == IF IsG THEN PrintT(<<"CASE", ToJson([fam |-> "gram", v |-> RJ(c.p.v), alpha |-> (IF Half THEN RJ(<<1, 2>>) ELSE RJ(R(c.p.alpha))), l |-> RJ(c.p.l),
+Inv_HalfExact == Half => \A i \in 1..Len(c.X), j \in 1..Len(Y) : IsSquareQ(IF TH THEN ThreeHalvesBase(c.p.l, c.X[i], Y[j]) ELSE HalfBase(c.p.l, c.X[i], Y[j]))
+Emit == IF IsG THEN PrintT(<<"CASE", ToJson([fam |-> "gram", v |-> RJ(c.p.v), alpha |-> (IF TH THEN RJ(<<3, 2>>) ELSE IF Half THEN RJ(<<1, 2>>) ELSE RJ(R(c.p.alpha))), l |-> RJ(c.p.l),
                                X |-> RSeqJ(c.X), Y |-> RSeqJ(Y),
                                rq |-> RSeqJ(Flat(Gram(K, c.X, Y))),
                                rbf_t |-> RSeqJ(Flat(Gram(LAMBDA x, y : RBFExponent(c.p.l, x, y), c.X, Y)))])>>)
-        ELSE PrintT(<<"CASE", ToJson([fam |-> "scalar", v |-> RJ(c.p.v), alpha |-> RJ(R(c.p.alpha)), l |-> RJ(c.p.l)])>>)
+        ELSE PrintT(<<"CASE", ToJson([fam |-> "scalar", v |-> RJ(c.p.v), alpha |-> (IF "ralpha" \in DOMAIN c THEN RJ(c.ralpha) ELSE RJ(R(c.p.alpha))), l |-> RJ(c.p.l)])>>)
 =============================================================================
